@@ -330,43 +330,86 @@ def check_borrowed(prog, rep):
             if q.count('.') != 1:
                 continue
             borrowed = {}
+            blists = {}
+
+            def borrow_src(v):
+                """text of the stored tensor the expression may evaluate to (None: fresh)"""
+                if isinstance(v, ast.Subscript) and is_self_attr(v.value) and \
+                        v.value.attr in BORROW_ATTRS:
+                    return unparse(v)
+                if isinstance(v, ast.Subscript) and isinstance(v.value, ast.Name) and \
+                        v.value.id in blists:
+                    return '%s (element of %s)' % (blists[v.value.id], v.value.id)
+                if isinstance(v, ast.Name) and v.id in borrowed:
+                    return borrowed[v.id][1]
+                if isinstance(v, ast.Call) and is_self_attr(v.func) and \
+                        v.func.attr in ('get_B', 'get_W'):
+                    cp = kwarg(v, 'copy')
+                    if cp is None and v.func.attr == 'get_B' and len(v.args) > 2:
+                        cp = v.args[2]
+                    if cp is None or (isinstance(cp, ast.Constant) and cp.value is False):
+                        # a form conversion creates a new tensor: only form=None borrows
+                        fm = kwarg(v, 'form')
+                        if fm is None and len(v.args) > 1:
+                            fm = v.args[1]
+                        if v.func.attr == 'get_W' or (
+                                fm is not None and isinstance(fm, ast.Constant) and
+                                fm.value is None):
+                            return unparse(v)
+                    return None
+                # methods that return (a view of / the same) tensor
+                if isinstance(v, ast.Call) and isinstance(v.func, ast.Attribute):
+                    inner = borrow_src(v.func.value)
+                    if inner is None:
+                        return None
+                    if v.func.attr in inplace:
+                        return inner            # in-place methods return self
+                    if v.func.attr == 'astype':
+                        cp = kwarg(v, 'copy')
+                        if cp is None and len(v.args) > 1:
+                            cp = v.args[1]
+                        if cp is not None and not (isinstance(cp, ast.Constant) and
+                                                   cp.value is True):
+                            return inner + ' via astype(copy=%s)' % unparse(cp)
+                return None
+
             for st in stmts_of(f):
                 if isinstance(st, ast.Assign) and len(st.targets) == 1 and isinstance(
                         st.targets[0], ast.Name):
                     v = st.value
-                    src = None
-                    if isinstance(v, ast.Subscript) and is_self_attr(v.value) and \
-                            v.value.attr in BORROW_ATTRS:
-                        src = unparse(v)
-                    if isinstance(v, ast.Call) and is_self_attr(v.func) and \
-                            v.func.attr in ('get_B', 'get_W'):
-                        cp = kwarg(v, 'copy')
-                        if cp is None and v.func.attr == 'get_B' and len(v.args) > 2:
-                            cp = v.args[2]
-                        if cp is None or (isinstance(cp, ast.Constant) and cp.value is False):
-                            # a form conversion creates a new tensor: only form=None borrows
-                            fm = kwarg(v, 'form')
-                            if fm is None and len(v.args) > 1:
-                                fm = v.args[1]
-                            if v.func.attr == 'get_W' or (
-                                    fm is not None and isinstance(fm, ast.Constant) and
-                                    fm.value is None):
-                                src = unparse(v)
+                    if isinstance(v, ast.ListComp):
+                        src = borrow_src(v.elt)
+                        if src:
+                            blists[st.targets[0].id] = src
+                        continue
+                    src = borrow_src(v)
                     if src:
                         borrowed[st.targets[0].id] = (st, src)
             if not borrowed:
                 continue
             cfg = None
             for c in body_nodes(f):
-                if not isinstance(c, ast.Call):
-                    continue
                 hit = None
                 how = None
-                if isinstance(c.func, ast.Attribute) and isinstance(c.func.value, ast.Name) and \
+                ip = None
+                if isinstance(c, (ast.Assign, ast.AugAssign)):
+                    tgts = c.targets if isinstance(c, ast.Assign) else [c.target]
+                    for t in tgts:
+                        if isinstance(t, ast.Subscript) and isinstance(t.value, ast.Name) and \
+                                t.value.id in borrowed:
+                            hit, how = t.value.id, 'the element store `%s`' % key_text(c)[:50]
+                        if isinstance(c, ast.AugAssign) and isinstance(t, ast.Name) and \
+                                t.id in borrowed:
+                            hit, how = t.id, 'the augmented assignment `%s`' % key_text(c)[:50]
+                if not isinstance(c, ast.Call) and hit is None:
+                    continue
+                if isinstance(c, ast.Call) and isinstance(c.func, ast.Attribute) and \
+                        isinstance(c.func.value, ast.Name) and \
                         c.func.value.id in borrowed and c.func.attr in inplace and \
                         c.func.attr not in BORROW_OK and c.func.attr not in BENIGN_INPLACE:
                     hit, how = c.func.value.id, 'in-place method `%s`' % c.func.attr
-                ip = kwarg(c, 'inplace')
+                if isinstance(c, ast.Call):
+                    ip = kwarg(c, 'inplace')
                 if ip is not None and not (isinstance(ip, ast.Constant) and ip.value is False):
                     for a in c.args:
                         if isinstance(a, ast.Name) and a.id in borrowed:
